@@ -68,6 +68,15 @@ fn run_minimize(t: &mut Trace, a: Automaton, tag: &str, again: bool) {
     t.op(&format!("min minimize {} {}", tok, r), "ok", true);
     t.op(&format!("min minimize_literal {}", tok), &r, true);
     t.op(&format!("min minimize_num_states {}", tok), &n2.to_string(), true);
+    // minimization may renumber the initial state; pruning afterwards must start from it
+    let r2 = guarded(|| {
+        a.remove_unreachable_states();
+        aut_str(&a)
+    });
+    t.op(&format!("min minimize_then_prune {}", tok), &r2, true);
+    if r2 == "PANIC" {
+        return;
+    }
     t.op(&format!("min quotient_check {}", tok), "1", n2 < n);
     if again {
         // the result is minimal: a second call must not change the number of states
